@@ -27,6 +27,24 @@ def tagged_to_plain(t):
     raise TypeError(repr(t))
 
 
+def tree_to_xml(t):
+    """rebuild XML text from a dumped infoset tree"""
+    from lxml import etree
+
+    def build(n, parent=None):
+        nsmap = {k: v for k, v in n["ns"]}
+        tag = "{%s}%s" % (n["u"], n["l"]) if n["u"] else n["l"]
+        el = etree.Element(tag, nsmap=nsmap) if parent is None else etree.SubElement(parent, tag, nsmap=nsmap)
+        for (u, l, v) in n["a"]:
+            el.set("{%s}%s" % (u, l) if u else l, v)
+        if n["t"] is not None:
+            el.text = n["t"]
+        for c in n["c"]:
+            build(c, el)
+        return el
+    return etree.tostring(build(t), xml_declaration=True, encoding="UTF-8").decode("utf-8")
+
+
 def dec_name(j):
     if j is None:
         return None
@@ -130,6 +148,10 @@ def replay_ops(ops):
         elif o == "dec_json":
             from .. import jsontree
             w.dec_json(json.dumps(tagged_to_plain(op["tree"])))
+        elif o == "enc_xml":
+            w.enc_xml(op["c"], op.get("ft", False))
+        elif o == "dec_xml":
+            w.dec_xml(tree_to_xml(op["tree"]))
         elif o == "obs":
             w.obs(op["c"])
         elif o == "obs_rec":
